@@ -428,3 +428,41 @@ func vxH09Recycle(n int, ntags int) {
 	}
 	vxReach("done")
 }
+
+// H09.tagburst: more completions under one tag than the Tag's internal queue holds (16) while the consumer is not
+// reading: n requests are issued, the server answers all of them at once, and only then does the consumer start to
+// drain the user channel. Completions arrive in the order issued, each with the reply to its own request.
+func vxH09TagBurst(n int) {
+	nc := vxNewCConn()
+	clnt := vxNewClient(nc, 128, true, 3)
+	var pend []*vxPReq
+	peer := vxNewPeer(nc, true, func(p *vxPeer, r *vxPReq) {
+		pend = append(pend, r)
+		if len(pend) < n {
+			return
+		}
+		for _, q := range pend {
+			p.send(q, p.matchingReply(q), 0)
+		}
+		pend = nil
+	})
+	user := make(chan *Req)
+	tag := clnt.TagAlloc(user)
+	fid := &Fid{Clnt: clnt, Fid: 7, Iounit: 8, walked: true}
+	for i := 0; i < n; i++ {
+		vxAssert(tag.Read(fid, uint64(0x0101*(i+1)), 2) == nil, "pipelined-request-accepted")
+	}
+	vxQuiesce() // every reply has been received or is waiting behind the full queue
+	for i := 0; i < n; i++ {
+		r := <-user
+		vxAssert(r != nil && r.Tc != nil && r.Rc != nil, "completion-carries-request-and-reply")
+		if r == nil || r.Tc == nil || r.Rc == nil {
+			return
+		}
+		off := uint64(0x0101 * (i + 1))
+		vxAssert(vxAll(r.Tc.Type == Tread, r.Tc.Offset == off), "completions-arrive-in-issue-order")
+		vxAssert(r.Rc.Type == Rread && refBytesEq(r.Rc.Data, []byte{byte(off), byte(off >> 8)}), "completion-carries-the-reply-to-its-own-request")
+	}
+	peer.sync()
+	vxReach("done")
+}
